@@ -56,6 +56,9 @@ structure MsgD where
   hdrPhase : Nat
   qc : CertD          -- x.Qc
   hq : Option CertD   -- x.HighQc
+  qcProposer : Option Nat := none  -- x.Qc.ProposerKey (PROPOSE messages)
+  hasBlock : Bool := true          -- x.Qc.Block != nil
+  hasResults : Bool := true        -- x.Qc.Results != nil
 deriving Repr
 
 inductive Op where
@@ -71,7 +74,7 @@ inductive Op where
   /-- a PROPOSE / PRECOMMIT / COMMIT leader message handed to `HandleMessage` of replica `r` -/
   | dl (r : Nat) (m : MsgD)
   /-- an ELECTION_VOTE of view `v` carrying `HighQc` handed to `HandleMessage` of replica `r` -/
-  | ev (r : Nat) (v : View) (hq : CertD)
+  | ev (r : Nat) (v : View) (named : Option Nat) (hq : CertD) (hasBlock hasResults : Bool)
 
 /-! ### parsing -/
 
@@ -102,6 +105,12 @@ def parseCert (s : String) : Option CertD :=
 def parseOptCert (s : String) : Option (Option CertD) :=
   if s == "-" then some none else (parseCert s).map some
 
+def parseOptNat (s : String) : Option (Option Nat) :=
+  if s == "-" then some none else (parseNat s).map some
+
+def parseBit (s : String) : Option Bool :=
+  if s == "1" then some true else if s == "0" then some false else none
+
 def showView (v : View) : String := toString v.root ++ "." ++ toString v.round
 def showBlk (b : Nat) : String := toString (blkHashOf b) ++ "." ++ toString (resHashOf b)
 
@@ -118,10 +127,12 @@ def parseOp : List String → Option Op
   | ["agree?"] => some .agree
   | ["reset", r, root] => do some (.reset (← parseNat r) (← parseNat root))
   | "ph" :: r :: phase :: args => do some (.ph (← parseNat r) (← parseNat phase) args)
-  | ["dl", r, sender, hdr, hdrPhase, qc, hq] => do
+  | ["dl", r, sender, hdr, hdrPhase, qc, hq, qcp, hb, hr] => do
       some (.dl (← parseNat r) { sender := ← parseNat sender, hdr := ← parseView hdr, hdrPhase := ← parseNat hdrPhase,
-                                 qc := ← parseCert qc, hq := ← parseOptCert hq })
-  | ["ev", r, v, hq] => do some (.ev (← parseNat r) (← parseView v) (← parseCert hq))
+                                 qc := ← parseCert qc, hq := ← parseOptCert hq, qcProposer := ← parseOptNat qcp,
+                                 hasBlock := ← parseBit hb, hasResults := ← parseBit hr })
+  | ["ev", r, v, named, hq, hb, hr] => do
+      some (.ev (← parseNat r) (← parseView v) (← parseOptNat named) (← parseCert hq) (← parseBit hb) (← parseBit hr))
   | _ => none
 
 /-! ### per-replica handlers -/
@@ -270,6 +281,11 @@ def Rep.phaseStep (s : Rep) (args : List String) : Option (Rep × String) :=
     | _ => none
   else none
 
+/-- public keys as ids for the generated checks: replica index + 1, 0 = no key -/
+def keyId : Option Nat → Nat
+  | none => 0
+  | some r => r + 1
+
 inductive Verdict where
   | ok | partialQC | err (e : String)
 deriving DecidableEq, Repr
@@ -298,18 +314,26 @@ def World.leaderVerdict (w : World) (s : Rep) (m : MsgD) : Verdict :=
     else if isPartial then .partialQC
     else if Gen.Bft.leaderMsgWrongHeight hdr modelHeight then .err "ErrWrongCertHeight"
     else if Gen.Bft.leaderMsgQcTooOld qc 0 then .err "ErrInvalidQCCommitteeHeight"
-    else if m.hdrPhase == phase_PROPOSE then .ok
+    else if m.hdrPhase == phase_PROPOSE then
+      match Gen.Bft.proposeMsgChecks qc hdr (keyId (some m.sender)) (keyId m.qcProposer) m.hasBlock m.hasResults with
+      | none => .ok
+      | some e => .err e
     else
       let saved := s.blk.getD 0
-      match Gen.Bft.leaderMsgChecks qc hdr s.blk.isSome (blkHashOf m.qc.blk) (resHashOf m.qc.blk) (blkHashOf saved) (resHashOf saved) with
+      match Gen.Bft.leaderMsgChecks qc hdr (keyId (some m.sender)) (keyId s.proposer) s.blk.isSome
+          (blkHashOf m.qc.blk) (resHashOf m.qc.blk) (blkHashOf saved) (resHashOf saved) with
       | none => .ok
       | some e => .err e
 
 def World.checkLeaderMsg (w : World) (s : Rep) (m : MsgD) : String := (w.leaderVerdict s m).show
 
-/-- `handleHighQCVDFAndEvidence` for an ELECTION_VOTE that passed `CheckReplicaMessage` (same height and root height) -/
-def World.electionVote (w : World) (s : Rep) (v : View) (hq : CertD) : Rep × String :=
+/-- `handleHighQCVDFAndEvidence` for an ELECTION_VOTE carrying a HighQc that passed `CheckReplicaMessage` (same height
+    and root height); `named` = the candidate the vote names -/
+def World.electionVote (w : World) (r : Nat) (s : Rep) (v : View) (named : Option Nat) (hq : CertD)
+    (hasBlock hasResults : Bool) : Rep × String :=
   if v.root != s.root then (s, "err:ErrWrongRootHeight") else
+  if Gen.Bft.electionVoteIgnored (named == some r) v.round s.round s.phase then (s, "keep") else
+  if Gen.Bft.highQcMissingProposal hasBlock hasResults then (s, "err:ErrNilBlock") else
   if !(w.sigValid hq) then (s, "err:ErrInvalidAggrSignature") else
   match Gen.Bft.checkHighQCPost (w.isPartial hq.signers) (certHdr hq) (hdrOf ⟨s.root, s.round⟩ s.phase) 0 with
   | some e => (s, "err:" ++ e)
@@ -318,8 +342,8 @@ def World.electionVote (w : World) (s : Rep) (v : View) (hq : CertD) : Rep × St
       | none => (false, hdrOf ⟨0, 0⟩ 0)
       | some (lv, lph, _) => (true, hdrOf lv lph)
     if Gen.Bft.adoptHigher hasLock lockHdr (certHdr hq) then
-      -- b.HighQC = vote.HighQc; b.Block, b.Results = vote.Qc.Block, vote.Qc.Results (nil in an honest ELECTION_VOTE)
-      ({ s with lock := some (hq.view, hq.phase, hq.blk), blk := none }, "adopt")
+      -- b.HighQC = vote.HighQc (the block of the round is left alone)
+      ({ s with lock := some (hq.view, hq.phase, hq.blk) }, "adopt")
     else (s, "keep")
 
 def World.setRep (w : World) (r : Nat) (s : Rep) : World := { w with reps := w.reps.set r s }
@@ -378,11 +402,11 @@ def World.apply (w : World) : Op → World × String
     match w.reps[r]? with
     | none => (w, "bad-op")
     | some s => (w, w.checkLeaderMsg s m)
-  | .ev r v hq =>
+  | .ev r v named hq hb hr =>
     match w.reps[r]? with
     | none => (w, "bad-op")
     | some s =>
-      let (s', res) := w.electionVote s v hq
+      let (s', res) := w.electionVote r s v named hq hb hr
       (w.setRep r s', res ++ " " ++ s'.show)
 
 end Canopy.Bft
